@@ -114,15 +114,28 @@ func (ts *Timers) Add(ctx context.Context, id string, message interface{}, in ti
 
 			// Not exactly what we want ...
 		case <-timer.C:
+			// Claim the entry before firing.  If the entry is
+			// gone (or is another timer that reuses the id),
+			// then this timer was removed while it was becoming
+			// due, and it must not fire.  Once the entry is
+			// claimed, the id is free for reuse, even by
+			// whatever handles the message.
+			//
+			// See https://github.com/Comcast/sheens/issues/19
+			ts.Lock()
+			current, have := ts.timers[id]
+			if have && current == te {
+				delete(ts.timers, id)
+			}
+			ts.Unlock()
+			if !have || current != te {
+				return
+			}
+
 			Logf("Timers firing %s", JS(ts))
 			if err := ts.emit(ctx, te.Message); err != nil {
 				ts.err(fmt.Errorf("Timers emit error %v id=%s", err, id))
 			}
-
-			// See https://github.com/Comcast/sheens/issues/19
-			ts.Lock()
-			delete(ts.timers, id)
-			ts.Unlock()
 		}
 	}()
 
